@@ -22,8 +22,8 @@ const (
 
 func init() {
 	register(&Property{
-		ID:  "C20",
-		Run: runC20,
+		ID:          "C20",
+		Run:         runC20,
 		Explanation: "Decides the structural clauses that make error classification path-independent: (R1) every in-repo error type that stores an error exposes it through Unwrap (whole repo); (R2) on the packages between a node/worker/connector error and tomb.Kill / the API status mapping / ExitCode, every error-typed operand of Errorf is formatted with %w and no cerrors.Errorf (= xerrors.Errorf, single %w only) carries two; (R3) no identity comparison or type assertion classifies an error outside cerrors.Is/As (tabled never-wrapped exceptions); (R4) the classifiers IsFatalError / FatalError / conduiterr.Get / Wrap are errors.As based; (R5, exhaustive) the exit-code function is a total pure constant table and every conduiterr.Register-ed code lands in exactly one bucket, ExitCode consults the coded error before the gRPC status before the sentinels, and os.Exit is fed only by that classifier; (R6) ToStatus and FromStatus agree on metadata keys, domain and reason lookup.",
 		NotDecided:  []string{"behaviour of errors.As/Is/Join and xerrors themselves", "protobuf encoding of the status details", "which bucket a code should be in (the property demands a fixed function, not a particular one)"},
 		Assumptions: []string{"errors.As/Is walk Unwrap() error and Unwrap() []error chains", "xerrors.Errorf honours exactly one %w"},
@@ -311,9 +311,9 @@ func c20R3(c *Ctx) {
 	r := c.R.Rule("R3", "K12(c) no identity classification: error values are compared/asserted only through cerrors.Is/As (tabled exceptions: values that are never wrapped at that point)", 5)
 	// (enclosing function, compared object or asserted type) -> reason
 	allowed := map[string]string{
-		"pkg/lifecycle.(*Service).runPipeline|ErrStillAlive":     "tomb.Err() returns the sentinel itself while the tomb is alive, never wrapped",
-		"pkg/lifecycle-poc.(*Service).runPipeline|ErrStillAlive": "tomb.Err() returns the sentinel itself while the tomb is alive, never wrapped",
-		"pkg/conduit.(*Runtime).serveHTTP|ErrServerClosed":       "http.Server.Serve returns http.ErrServerClosed verbatim (net/http contract)",
+		"pkg/lifecycle.(*Service).runPipeline|ErrStillAlive":        "tomb.Err() returns the sentinel itself while the tomb is alive, never wrapped",
+		"pkg/lifecycle-poc.(*Service).runPipeline|ErrStillAlive":    "tomb.Err() returns the sentinel itself while the tomb is alive, never wrapped",
+		"pkg/conduit.(*Runtime).serveHTTP|ErrServerClosed":          "http.Server.Serve returns http.ErrServerClosed verbatim (net/http contract)",
 		"pkg/conduit.(*Runtime).registerCleanupV2|DeadlineExceeded": "lifecycle Service.Wait returns context.DeadlineExceeded verbatim on timeout; only selects a log message",
 		"pkg/conduit.(*Runtime).registerCleanup|DeadlineExceeded":   "lifecycle Service.Wait returns context.DeadlineExceeded verbatim on timeout; only selects a log message",
 	}
@@ -732,8 +732,8 @@ func c20R5(c *Ctx) {
 	osExit := c.ExtFunc(r, "os", "Exit")
 	exitCodeFn := c.Fn(r, pExitcode, "ExitCode")
 	tabled := map[string]string{
-		"cmd/conduit/internal/llmsgen.main": "documentation generator binary, not the conduit CLI",
-		"pkg/registry.fireChaos":            "env-gated crash-injection hook for the registry chaos tests (exit 137 simulates SIGKILL)",
+		"cmd/conduit/internal/llmsgen.main":           "documentation generator binary, not the conduit CLI",
+		"pkg/registry.fireChaos":                      "env-gated crash-injection hook for the registry chaos tests (exit 137 simulates SIGKILL)",
 		"pkg/conduit.(*Entrypoint).CancelOnInterrupt": "second-signal hard exit with the POSIX 128+signum code; not an error classification",
 	}
 	if osExit != nil {
